@@ -27,3 +27,24 @@ def replay(spec):
             pass
         return ok, d + ' [%s]' % bytes.fromhex(spec['hex'])[:200]
     return None, 'unknown op'
+
+def replay_history(spec):
+    """spec: runs=[{hex, holes, expect_traces, expect_outcome}]; all on one native VM. Reproduced iff some run's traces / failure status differ from the reference."""
+    args = ['runs', str(spec.get('ops', vmh.OPS_DEFAULT))]
+    for i, r in enumerate(spec['runs']):
+        if i: args.append('--')
+        args.append(r['hex']); args += list(r.get('holes', []))
+    rc, out, err = run(args, timeout=spec.get('timeout', 40))
+    ok, d = native.classify(rc, out, err)
+    if ok: return ok, d
+    runs = out.split('RUN ')[1:]
+    for i, (txt, r) in enumerate(zip(runs, spec['runs'])):
+        lines = txt.split('\n')
+        tr = [l[6:] for l in lines if l.startswith('TRACE ')]
+        res = [l for l in lines if l.startswith('RESULT ')]
+        errs = [l for l in lines if l.startswith('LOG 0 ') or l.startswith('LOG 1 ')]
+        rcode = int(res[0].split()[1]) if res else None
+        if tr != r['expect_traces']: return True, 'native run %d differs from the reference: traces %r, reference %r' % (i + 1, tr[:10], r['expect_traces'][:10])
+        if r['expect_outcome'] == 'ok' and (rcode == 2 or errs): return True, 'native run %d is error-free by the reference but was reported failed/blamed: result %s, %s' % (i + 1, rcode, (errs or [''])[0][:120])
+        if r['expect_outcome'] == 'error' and rcode != 2: return True, 'native run %d has an unhandled error by the reference but returned %s' % (i + 1, rcode)
+    return False, 'native history agrees with the reference'
